@@ -162,6 +162,11 @@ def check_protocol(ctx, model, clauses):
                     if once('R10-validate-before-install', 'dynamic install'):
                         ctx.violation('R10-validate-before-install', fi, st, 'whatever the module namespace happens to hold is installed (the generate_for_pack / generate_for_unpack options are not consulted): a function left there by an earlier same-named module is installed although this declaration did not generate it', line, clause='V')
                     continue
+                if m is not None and not model.sym(m) and _from_process_memo(ctx.repo, fi, m):
+                    # functions of a module remembered from an earlier definition in this process
+                    if once('R10-validate-before-install', st):
+                        ctx.violation('R10-validate-before-install', fi, st[:200], 'the installed function comes from a table that outlives the class definition (a module kept from an earlier definition in this process), looked up by a key that is not the cookie of the text generated now: a same-named class declared differently gets the earlier code', line, clause='V', witness=True)
+                    continue
                 if m is None or not model.sym(m):
                     if once('R10-validate-before-install', st):
                         ctx.undecided('R10-validate-before-install', fi, st, 'the installed function is not an attribute of a loaded / in-memory module', line, clause='V')
@@ -268,6 +273,24 @@ def foreign_operands(model, p, evs, src):
                 continue
         bad.append(op)
     return bad
+
+
+def _from_process_memo(repo, fi, m):
+    """``m`` is an entry of a module-level table (TABLE.get(key) / TABLE[key] / TABLE.setdefault) of
+    the module the function lives in"""
+    tbl = None
+    if isinstance(m, ast.Call) and isinstance(m.func, ast.Attribute) and m.func.attr in ('get', 'setdefault', 'pop') and isinstance(m.func.value, ast.Name):
+        tbl = m.func.value.id
+    elif isinstance(m, ast.Subscript) and isinstance(m.value, ast.Name):
+        tbl = m.value.id
+    if tbl is None:
+        return False
+    tree = repo.modules[fi.module]['tree']
+    for st in tree.body:
+        if isinstance(st, ast.Assign) and any(isinstance(t, ast.Name) and t.id == tbl for t in st.targets) \
+                and (isinstance(st.value, ast.Dict) or (isinstance(st.value, ast.Call) and (call_name(st.value) or '').split('.')[-1] in ('dict', 'OrderedDict', 'WeakValueDictionary', 'defaultdict'))):
+            return True
+    return False
 
 
 def check_no_blocking(ctx):
